@@ -47,3 +47,36 @@ def gen_changelog(rng, max_blocks=3):
             # separator lines between / after blocks: empty, or blank but not empty (they are text like any other)
             lines += [rng.choice(["", "", "", " ", "\t", "  "]) for _ in range(rng.choice([1, 1, 2]))]
     return "\n".join(lines) + "\n", comps
+
+
+def large_changelog(n_blocks=700):
+    """a well-formed changelog far beyond 64 KiB: hundreds of blocks, one of them with 20 distributions and 600 change lines;
+    returns (text, components per block)"""
+    lines, comps = [], []
+    for i in range(n_blocks):
+        dists = "unstable" if i != 3 else " ".join("dist-%02d" % j for j in range(20))
+        header = "pkg-%d (1.%d-1) %s; urgency=low" % (i % 7, i, dists)
+        body = [""] + ["  * change %d of block %d %s" % (j, i, "w" * (j % 50)) for j in range(600 if i == 5 else 1 + i % 3)] + [""]
+        trailer = " -- A B <a@b.org>  Thu, 12 Dec 2006 12:23:34 +0000"
+        lines += [header] + body + [trailer, ""]
+        comps.append(dict(package="pkg-%d" % (i % 7), version="1.%d-1" % i, distributions=dists, urgency="low", urgency_comment="",
+                          other_pairs=[], changes=list(body), author="A B <a@b.org>", date="Thu, 12 Dec 2006 12:23:34 +0000"))
+    return "\n".join(lines[:-1]) + "\n", comps
+
+
+def aligned_changelogs():
+    """variants of the large changelog in which a line end falls exactly on / next to a multiple of the usual buffer sizes
+    (4 KiB, 8 KiB, 64 KiB): yields (description, text, components)"""
+    for block in (4096, 8192, 65536):
+        for delta in (-1, 0, 1):
+            text, comps = large_changelog()
+            want = block - 1 + delta                     # index at which a newline is to sit
+            prev_nl = text.rfind("\n", 0, want)
+            k = want - prev_nl                           # lengthening an early line by k moves that line end onto `want`
+            first = text.find("\n  * ")
+            eol = text.find("\n", first + 1)
+            assert eol < prev_nl
+            text2 = text[:eol] + "w" * k + text[eol:]
+            comps[0]["changes"][1] = comps[0]["changes"][1] + "w" * k
+            assert text2[want] == "\n"
+            yield "a line end at offset %d" % want, text2, comps
